@@ -17,7 +17,7 @@ import random
 
 PID = "C10"
 LEVEL = "proof"
-LEAN_MODULES = ["AsynqModel.Theorems.C10"]
+LEAN_MODULES = ["AsynqModel.Theorems.C10", "AsynqModel.Theorems.C10b"]
 # the claims of the property (each a statement over all kinds / states / histories with a proof that is more than one
 # unfolding of the model); every hypothesis has a machine-checked necessity witness in Theorems/C10.lean
 HEADLINE = [
@@ -30,6 +30,12 @@ HEADLINE = [
     "AsynqModel.Futures.C10_spec_enforces_notify",
     "AsynqModel.Futures.C10_spec_enforces_set",
     "AsynqModel.Futures.C10_spec_enforces_stable",
+    # Theorems/C10b.lean: the step-level facts above hold at EVERY position of an accepted history of any length and
+    # origin (every record was accepted by watchStep from the watch state of its predecessors; prefix-closed; one
+    # rejected record rejects the history)
+    "AsynqModel.Futures.C10_spec_every_step",
+    "AsynqModel.Futures.C10_spec_prefix",
+    "AsynqModel.Futures.C10_spec_rejects",
     "AsynqModel.Futures.C10_stable_until_reset",
     "AsynqModel.Futures.C10_const_complete",
     "AsynqModel.Futures.C10_runs_step",
